@@ -170,10 +170,9 @@ func (s *Session) execTwoStore(slot int) (obs, viol string) {
 	prefix2 := fmt.Sprintf("rec-other-%d", twoStoreSeq)
 	if twoStoreSeq%2 == 0 {
 		v := []string{"%s/", "./%s", "%s/.", "%s//"}[(twoStoreSeq/2)%4]
+		// (always relative to THIS session's first store: the cache is per session, so a name near a
+		// second store of an earlier session can collide with nothing)
 		prefix2 = fmt.Sprintf(v, s.Store.Prefix)
-		if twoStoreSeq >= 8 {
-			prefix2 = fmt.Sprintf(v, fmt.Sprintf("rec-other-%d", twoStoreSeq-1)) // near an earlier second store
-		}
 	}
 	st2 := NewRecStore(prefix2)
 	cfg := s.remoteConfig()
